@@ -3,7 +3,8 @@
    assigned in the module) are the model's should_count / weight / prep; a call leaves the modelled options alone. *)
 From Coq Require Import ZArith List Bool QArith Lia Btauto.
 Import ListNotations.
-From SCMO Require Import Lib.Val Model.C11 Gen.GenCountFilter Proofs.C11 Proofs.C11_table.
+From SCMO Require Import Lib.Val Model.C11 Model.C11x Gen.GenCountFilter Proofs.C11 Proofs.C11_table Proofs.C11_keys
+  Proofs.C11x.
 Open Scope Z_scope.
 
 Lemma guard_cong a a' k k' : a = a' -> k = k' -> guard a k = guard a' k'.
@@ -19,7 +20,7 @@ Lemma mp_merge (f : bool) r k :
   = guard (Ok (f && negb (mp_unique r))) k.
 Proof.
   unfold mp_unique, tag_eq_str, has_tag. change t_mp with [109; 112]. change s_unique with [117; 110; 105; 113; 117; 101].
-  destruct f; destruct (get_tag r [109; 112]) as [[z|s]|]; cbn; reflexivity.
+  destruct f; destruct (get_tag r [109; 112]) as [[z|s|q s]|]; cbn; reflexivity.
 Qed.
 
 Lemma existsb_cons {A} (f : A -> bool) x l : existsb f (x :: l) = f x || existsb f l.
@@ -107,9 +108,10 @@ Lemma gen_weight_eq o r : gen_weight o r = weight o r.
 Proof.
   unfold gen_weight. rewrite !gen_base. unfold weight. cbv zeta. destruct (o_div_multi o); [|reflexivity].
   unfold has_tag, tag_split_len, tag_int. change t_XA with [88; 65]. change t_NH with [78; 72].
-  destruct (get_tag r [88; 65]) as [[z|s]|].
+  destruct (get_tag r [88; 65]) as [[z|s|q s]|].
   - reflexivity.
   - cbn [rdivq]. rewrite split_len_nonzero. reflexivity.
+  - reflexivity.
   - destruct (get_tag r [78; 72]) as [v|]; [|reflexivity]. cbn [rdivq]. destruct (py_int v); reflexivity.
 Qed.
 
@@ -134,6 +136,29 @@ Lemma history_stateless reads : forall steps ns,
 Proof.
   induction steps as [|f fs IH]; intros ns; [reflexivity|]. cbn [history requested map]. unfold call.
   f_equal. apply IH.
+Qed.
+
+(* -head: the break test of the current source, and its place relative to the assignReads call, in both loops *)
+Lemma gen_head_stop_plain_eq h i : gen_head_stop_plain h i = stop h i.
+Proof. unfold gen_head_stop_plain, stop. destruct h as [n|]; [|reflexivity]. rewrite ?Z.gtb_ltb, ?Z.geb_leb. reflexivity. Qed.
+
+Lemma gen_head_stop_bed_eq h i : gen_head_stop_bed h i = stop h i.
+Proof. unfold gen_head_stop_bed, stop. destruct h as [n|]; [|reflexivity]. rewrite ?Z.gtb_ltb, ?Z.geb_leb. reflexivity. Qed.
+
+Lemma gen_head_plain o h reads acc :
+  loop_src gen_head_test_first_plain gen_head_stop_plain o None h 0 reads acc
+  = count_reads o None (head_plain h reads) acc.
+Proof.
+  rewrite (loop_src_ext _ gen_head_stop_plain stop o None h (gen_head_stop_plain_eq h)).
+  change gen_head_test_first_plain with true. rewrite loop_src_plain. apply loop_plain_head.
+Qed.
+
+Lemma gen_head_bed o reg h reads acc :
+  loop_src gen_head_test_first_bed gen_head_stop_bed o (Some reg) h 0 reads acc
+  = count_reads o (Some reg) (head_bed h reads) acc.
+Proof.
+  rewrite (loop_src_ext _ gen_head_stop_bed stop o (Some reg) h (gen_head_stop_bed_eq h)).
+  change gen_head_test_first_bed with false. rewrite loop_src_bed. apply loop_bed_head.
 Qed.
 
 Lemma gen_iff o r b : gen_should_count o r = Ok b -> (b = true <-> passes o r).
